@@ -92,6 +92,13 @@ A remove_all that has no up-front query but evaluates one per task inside a nest
 refuted by name (C18-r73: the filters see a partially pruned tree); no query at all but calls the rule does not follow ->
 UNDECIDED.
 
+Round 8: a predicate chosen once (`predicate = _match_any if key is None else key`, also by if/else or with a lambda) and applied
+as `predicate(t)` is distributed over the choice and the module-level one-expression null object (`return True`) is inlined, so
+the filter reads `key is None or key(t)`; a filter `key is not None` (rejects everything without a key) and `key is not None or
+key(t)` are refuted.  Besides `v is None`, any other test of the filter value alone (`type(v) is list`, `isinstance(v, ..)`) is a
+free variable of the truth table: the decision must not depend on the kind of filter value (C18-r82: a list value turned the
+plain keyword into `not in`).
+
 Shapes followed since round 3: the attribute resolver is today's `__get_task_attribute` or - when that anchor is gone - the
 one package function `search` calls as `<fn>(<task>, <name>)` (moved to module level, to another class, nested in `__call__`);
 a filter of the result comprehension / selection loop that calls a predicate nested in `__call__` (or a local bound to a
@@ -412,6 +419,32 @@ class _SearchVocab:
             for a, b in ((e.left, e.comparators[0]), (e.comparators[0], e.left)):
                 if _is_const(b, None) and self.val_is(a):
                     return neg != isinstance(e.ops[0], (ast.IsNot, ast.NotEq))
+        return None
+
+    def value_only(self, e):
+        """a condition about the filter value and nothing else (`type(v) is list`, `isinstance(v, (list, set))`, `callable(v)`)
+        -> (negated, text of the positive test) else None"""
+        neg = False
+        while isinstance(e, ast.UnaryOp) and isinstance(e.op, ast.Not):
+            e, neg = e.operand, not neg
+        if isinstance(e, ast.Compare) and len(e.ops) == 1 and isinstance(e.ops[0], (ast.IsNot, ast.NotEq, ast.NotIn)):
+            e = ast.Compare(left=e.left, ops=[{ast.IsNot: ast.Is, ast.NotEq: ast.Eq, ast.NotIn: ast.In}[type(e.ops[0])]()],
+                            comparators=e.comparators)
+            neg = not neg
+        seen = [0]
+        me = self
+
+        class R(ast.NodeTransformer):
+            def visit(self, n):
+                if me.val_is(n):
+                    seen[0] += 1
+                    return ast.Constant(value=0)
+                return super().visit(n)
+        left = R().visit(copy.deepcopy(e))
+        allowed = {'type', 'isinstance', 'callable', 'len', 'list', 'tuple', 'set', 'frozenset', 'dict', 'str', 'int', 'float', 'bool',
+                   'Iterable', 'Sequence', 'Collection', 'hasattr'}
+        if seen[0] and not (names_in(left) - allowed) and not any(isinstance(n, ast.Attribute) for n in ast.walk(left)):
+            return (neg, src(e))
         return None
 
     def regex(self, e):
@@ -800,7 +833,7 @@ def _bool_simplify(e: ast.AST) -> ast.AST:
     return e
 
 
-def _inline_predicates(prog, f, cond: ast.AST, keep=()) -> ast.AST:
+def _inline_predicates(prog, f, cond: ast.AST, keep=(), expand=None) -> ast.AST:
     """calls of local predicate helpers in a filter condition replaced by their body: functions nested in f (other than those
     named in `keep`) whose body is an if/return chain over their parameters, and immediately applied lambdas"""
     nested = {g.name: g for g in prog.all_funcs() if g.parent is not None and g.parent.qual == f.qual and g.kind != 'lambda'
@@ -818,8 +851,37 @@ def _inline_predicates(prog, f, cond: ast.AST, keep=()) -> ast.AST:
                 # a local bound once to a lambda:  accepted = lambda t: ..
                 from sa.flow import flow_of
                 defs = flow_of(f).defs_of(fn.id)
-                if len(defs) == 1 and defs[0].kind == 'assign' and isinstance(defs[0].value, ast.Lambda):
+                if len(defs) == 1 and defs[0].kind == 'assign' and isinstance(defs[0].value, (ast.Lambda, ast.IfExp)):
                     fn = copy.deepcopy(defs[0].value)
+                elif len(defs) > 1 and expand is not None and fn.id not in f.params:
+                    # chosen in an if/else: the Expander joins the definitions into `A if c else B`
+                    try:
+                        j = expand(ast.copy_location(ast.Name(id=fn.id, ctx=ast.Load()), node))
+                    except Exception:
+                        j = None
+                    if isinstance(j, ast.IfExp):
+                        fn = j
+            if isinstance(fn, ast.IfExp) and self.depth < 4:
+                # a predicate chosen once:  predicate = _match_any if key is None else key;  predicate(t)
+                self.depth += 1
+                try:
+                    return ast.IfExp(test=fn.test,
+                                     body=self.visit(ast.Call(func=fn.body, args=copy.deepcopy(node.args), keywords=[])),
+                                     orelse=self.visit(ast.Call(func=fn.orelse, args=copy.deepcopy(node.args), keywords=[])))
+                finally:
+                    self.depth -= 1
+            if isinstance(fn, ast.Name) and fn.id not in nested and fn.id not in keep and fn.id not in f.params:
+                # a module-level one-expression predicate (`def _match_any(_task): return True`)
+                g = prog.module_func(f.module.name, fn.id)
+                if g is None and fn.id in f.module.imports:
+                    origin = prog.resolve_import(f.module, fn.id)
+                    g = prog.funcs.get(origin) if origin else None
+                if g is not None and g.kind == 'function' and isinstance(g.node, ast.FunctionDef):
+                    body = [st for st in g.node.body if not (isinstance(st, ast.Expr) and isinstance(st.value, ast.Constant))]
+                    a = g.node.args
+                    if len(body) == 1 and isinstance(body[0], ast.Return) and body[0].value is not None and not (
+                            a.vararg or a.kwarg or a.kwonlyargs or a.defaults) and len(a.args) == len(node.args):
+                        return _bool_simplify(subst(body[0].value, {p.arg: v for p, v in zip(a.args, node.args)}))
             if isinstance(fn, ast.Lambda):
                 a = fn.args
                 if a.vararg or a.kwarg or a.kwonlyargs or a.defaults or len(a.args) != len(node.args):
@@ -1259,6 +1321,11 @@ def _one_suffix(o, f, V: _SearchVocab, paths: List[_Path], suffix: str, tables: 
                     # a test of the FILTER VALUE (`v is None`): a third variable of the truth table
                     catoms.append(('F', vn, None, pol, e, org))
                     continue
+                vo = V.value_only(e)
+                if vo is not None:
+                    # any other test of the filter value alone (`type(v) is list`): one more free variable
+                    catoms.append(('G', vo[0], vo[1], pol, e, org))
+                    continue
                 o.undecided(f, org, e, f"{label}: condition `{src(e)}` is not a None test, a comparison of the attribute value with "
                                        f"the filter value or a regular-expression search")
                 return
@@ -1339,6 +1406,8 @@ def _one_suffix(o, f, V: _SearchVocab, paths: List[_Path], suffix: str, tables: 
                     return
             elif kind == 'F':
                 lits.append(('F', truth_if_var_true, e, org, False))
+            elif kind == 'G':
+                lits.append(('G:' + info, truth_if_var_true, e, org, False))
             elif kind == 'S':
                 if fam != 'like':
                     o.refute(f, org, e, f"{wrong_branch}{label}: the code runs a regular expression (`{src(e)}`); the property's table says "
@@ -1352,47 +1421,57 @@ def _one_suffix(o, f, V: _SearchVocab, paths: List[_Path], suffix: str, tables: 
         norm_paths.append((lits, outcome, p))
     # ---- truth table (f_val: the filter value is None - only when the code tests it)
     has_f = any(var == 'F' for lits, _, _ in norm_paths for var, _, _, _, _ in lits)
+    gvars = sorted({var for lits, _, _ in norm_paths for var, _, _, _, _ in lits if var.startswith('G:')})
+    if len(gvars) > 4:
+        o.undecided(f, f.node, label, f"{label}: too many different tests of the filter value to enumerate")
+        return
+    import itertools
     for n_val in (False, True):
         for p_val in (True, False):
             for f_val in ((False, True) if has_f else (False,)):
-                if f_val and ((fam == 'eq' and p_val != n_val) or (fam == 'cmp' and op == '!=' and p_val != (not n_val))):
-                    continue         # filter value None: `attr == None` holds exactly when the attribute value is None
-                hits = []
-                for lits, outcome, p in norm_paths:
-                    if all({'N': n_val, 'P': p_val, 'F': f_val}[var] == want for var, want, _, _, _ in lits):
-                        hits.append((lits, outcome, p))
-                outs = {h[1] for h in hits}
-                if len(outs) != 1:
-                    o.undecided(f, f.node, label, f"{label}: the decision for (value is None={n_val}, operator atom={p_val}) is not unique")
-                    return
-                lits, outcome, p = hits[0]
-                if n_val:
-                    for var, want, e, org, unsafe in lits:
-                        if var == 'P' and unsafe:
-                            o.refute(f, org, e, f"{label}: `{src(e)}` is evaluated although the attribute value may be None (missing attribute): "
-                                                f"the None guard `is None` is missing or comes too late; a task lacking the attribute must "
-                                                f"simply not match")
-                            return
-                want_pass = _spec_pass(suffix, n_val, p_val)
-                if (outcome == 'pass') != want_pass:
-                    site = next((x for x in reversed(lits)), None)
-                    node = site[3] if site else (p.node or f.node)
-                    cons = site[2] if site else label
-                    state = f"the attribute value is {'None' if n_val else 'present'} and `{_op_text(suffix, True)}` is {p_val}"
-                    if fam == 'isnone':
-                        state = f"the attribute value is {'None' if n_val else 'not None'}"
-                    elif not n_val:
-                        state = f"`{_op_text(suffix, True)}` is {p_val}"
-                    if fam in ('cmp', 'like') and n_val:
-                        state = "the attribute value is None (missing attribute)"
-                    fl = [x for x in lits if x[0] == 'F']
-                    if fl:
-                        state += f" and the filter value {'is' if f_val else 'is not'} None (the code tests `{src(fl[0][2])}`: the decision " \
-                                 f"must not depend on that)"
-                    o.refute(f, node, cons, f"{wrong_branch}{label}: when {state} the filter {'passes' if outcome == 'pass' else 'rejects'} the "
-                                            f"task; the property's table (`{_op_text(suffix)}`) says it must "
-                                            f"{'pass' if want_pass else 'be rejected'}")
-                    return
+                for g_vals in itertools.product((False, True), repeat=len(gvars)):
+                    gmap = dict(zip(gvars, g_vals))
+                    if f_val and ((fam == 'eq' and p_val != n_val) or (fam == 'cmp' and op == '!=' and p_val != (not n_val))):
+                        continue         # filter value None: `attr == None` holds exactly when the attribute value is None
+                    hits = []
+                    for lits, outcome, p in norm_paths:
+                        if all({'N': n_val, 'P': p_val, 'F': f_val, **gmap}[var] == want for var, want, _, _, _ in lits):
+                            hits.append((lits, outcome, p))
+                    outs = {h[1] for h in hits}
+                    if len(outs) != 1:
+                        o.undecided(f, f.node, label, f"{label}: the decision for (value is None={n_val}, operator atom={p_val}) is not unique")
+                        return
+                    lits, outcome, p = hits[0]
+                    if n_val:
+                        for var, want, e, org, unsafe in lits:
+                            if var == 'P' and unsafe:
+                                o.refute(f, org, e, f"{label}: `{src(e)}` is evaluated although the attribute value may be None (missing attribute): "
+                                                    f"the None guard `is None` is missing or comes too late; a task lacking the attribute must "
+                                                    f"simply not match")
+                                return
+                    want_pass = _spec_pass(suffix, n_val, p_val)
+                    if (outcome == 'pass') != want_pass:
+                        site = next((x for x in reversed(lits)), None)
+                        node = site[3] if site else (p.node or f.node)
+                        cons = site[2] if site else label
+                        state = f"the attribute value is {'None' if n_val else 'present'} and `{_op_text(suffix, True)}` is {p_val}"
+                        if fam == 'isnone':
+                            state = f"the attribute value is {'None' if n_val else 'not None'}"
+                        elif not n_val:
+                            state = f"`{_op_text(suffix, True)}` is {p_val}"
+                        if fam in ('cmp', 'like') and n_val:
+                            state = "the attribute value is None (missing attribute)"
+                        fl = [x for x in lits if x[0] == 'F']
+                        if fl:
+                            state += f" and the filter value {'is' if f_val else 'is not'} None (the code tests `{src(fl[0][2])}`: the decision " \
+                                     f"must not depend on that)"
+                        gl = [x for x in lits if x[0].startswith('G:')]
+                        if gl:
+                            state += f" and `{gl[0][0][2:]}` is {gmap[gl[0][0]]} (the decision must not depend on the kind of filter value)"
+                        o.refute(f, node, cons, f"{wrong_branch}{label}: when {state} the filter {'passes' if outcome == 'pass' else 'rejects'} the "
+                                                f"task; the property's table (`{_op_text(suffix)}`) says it must "
+                                                f"{'pass' if want_pass else 'be rejected'}")
+                        return
     # (a branch shared with a shorter suffix - `if k.endswith('_like_'): negated = k.endswith('_not_like_')` - is fine when, as
     #  checked above, strip length and truth table are those of THIS suffix)
     o.site(f, names[0][1], f"{label}: strips {len(suffix)} chars, {_op_text(suffix)}"
@@ -1721,11 +1800,15 @@ def _call_returns(ctx):
             # ---------- filters
             atoms = []
             for c in ifs:
-                atoms += _filter_atoms(_inline_predicates(prog, f, c, keep=(search.name,)))
+                atoms += _filter_atoms(_inline_predicates(prog, f, c, keep=(search.name,),
+                                                          expand=lambda n, _r=r: ex.expand(n, cfg.node_of(_r), stop=accs)))
             uses_key = uses_kw = False
             problem = False
+            guarded_here = False
             for at, pol in atoms:
-                k = _key_filter(at, pol, KEY, Tn, key_set)
+                k = _key_filter(at, pol, KEY, Tn, key_set or guarded_here)
+                if (match(f"{KEY} is not None", at) and pol) or (match(f"{KEY} is None", at) and not pol):
+                    guarded_here = True          # an earlier conjunct already established that a key is given
                 s = _kw_filter(ctx, f, search, at, pol, KW, Tn)
                 if k == 'ok':
                     uses_key = True
@@ -1803,6 +1886,12 @@ def _key_filter(at, pol, KEY, Tn, key_set):
         if key_set:
             return 'ok'
         return ('bad', f"`{call}` is evaluated although key may be None (no `key is None or ..` guard)")
+    if (match(f"{KEY} is not None", at) and pol) or (match(f"{KEY} is None", at) and not pol):
+        return ('bad', f"the filter `{KEY} is not None` rejects every task when no callable key is given; without a key the keyword "
+                       f"filters alone decide")
+    if pol and (match(f"{KEY} is not None or {call}", at) or match(f"True if {KEY} is not None else {call}", at)
+                or match(f"{call} if {KEY} is None else True", at)):
+        return ('bad', f"`{src(at)}`: a given key is never applied (every task passes) and a missing key is called")
     inverted = [f"{KEY} is None or not {call}", f"{KEY} is not None and not {call}"]
     if any(match(g, at) for g in inverted) or (not pol and any(match(g, at) for g in good)):
         return ('bad', f"the callable key is applied with inverted polarity (`{src(at)}`)")
@@ -3061,6 +3150,9 @@ def _remove_each(ctx):
                 elif isinstance(nm, str) and prog.find_setter('Task', nm) is not None:
                     tgt = ast.copy_location(ast.Attribute(value=n.args[0], attr=nm, ctx=ast.Store()), n)
                     stores.append((cfg.node_containing(n).ast, tgt, n.args[2]))
+        # only stores to the property this list class is the view of (its getter builds `<ListClass>(self, self.<field>, ..)`):
+        # `task.parent = None` in a remove of another design is not "the rebuilt list"
+        stores = [x for x in stores if backing_field(ci, x[1].attr) is not None]
         if abstract[0] and not stores:
             return
         if not stores:
